@@ -313,7 +313,10 @@ Section Sst.
   Definition sc_kv (c : scursor) : option entry :=
     match sc_bc c with Some (_, bc) => bc_kv bc | None => None end.
 
-  (* index_entries.partition_point(|entry| entry.key < key) *)
+  (* index_entries.partition_point(|entry| entry.key < key): the number of leading entries whose
+     key is below `key`.  (The Rust binary-searches, which returns this number whenever the
+     entries are partitioned by the predicate; index entries are, being accepted by a
+     BlockBuilder in strictly increasing order.) *)
   Fixpoint partition_point (l : list (bytes * (N * N))) (key : bytes) : N :=
     match l with
     | [] => 0
